@@ -10,8 +10,9 @@
 (* outcome ok / fail; mode normal = returns whenever it likes, or           *)
 (* untilCancelled = returns only once its context is done; the reader it   *)
 (* hands out closes cleanly or returns an error from Close), canceller and *)
-(* closer (the caller: cancels the parent context at any point, closes the *)
-(* returned reader at any point after the return).                         *)
+(* closer (the caller: cancels the parent context at any point; reads the  *)
+(* returned reader partially / to EOF and closes it at any points after    *)
+(* the return).                                                            *)
 (*                                                                         *)
 (* Granularity: one step per channel operation.  `c` is unbuffered, so a   *)
 (* send and the matching receive are one joint step (taken by main; the    *)
@@ -48,6 +49,7 @@ variables
   retOwner = -1,                                \* whose result (and cancel func) main returned
   parentAtRet = FALSE,                          \* ghost: was the parent cancelled at the return
   readerClosed = FALSE,                         \* the caller closed the returned reader
+  readState = "none",                           \* how far the caller has read the returned reader: "none" | "part" | "eof"
   closeRet = "-",                               \* what that Close returned: "ok" | "err" (the member reader's error)
   h = <<>>;                                     \* ghost: the environment's actions in order
 
@@ -140,25 +142,39 @@ CCancel:
   h := Rec("cancel");
 end process;
 
-\* The caller closes the reader it got: at any point after the return, or never.
+\* The caller uses the reader it got: at any point after the return it may read some of it,
+\* read it to the end (the member's reader reports io.EOF), and close it - or never.
+\* Reading does nothing to the member's context, whatever Read returns.
 \* blobReader.Close: the member's reader is closed and, whatever that Close returned,
 \* cancel_i() is called (defer); the reader's error is the caller's.
 process closer = 3
 begin
-CClose:
+CUse:
   await pc[1] = "Done" /\ style = "reader" /\ ret \in Oks;
-  readerClosed := TRUE;
-  closeRet := IF closeErr[retOwner] THEN "err" ELSE "ok";
-  closed[retOwner] := TRUE;
-  ctxCancelled[retOwner] := TRUE;
-  h := Rec("close");
+  either
+    await readState = "none";
+    readState := "part";
+    h := Rec("readpart");
+    goto CUse;
+  or
+    await readState # "eof";
+    readState := "eof";
+    h := Rec("read");
+    goto CUse;
+  or
+    readerClosed := TRUE;
+    closeRet := IF closeErr[retOwner] THEN "err" ELSE "ok";
+    closed[retOwner] := TRUE;
+    ctxCancelled[retOwner] := TRUE;
+    h := Rec("close");
+  end either;
 end process;
 
 end algorithm; *)
 \* BEGIN TRANSLATION
 VARIABLES pc, out, mode, style, closeErr, parentCancelled, ctxCancelled, 
           doneClosed, taken, memberReturned, opened, closed, ret, retOwner, 
-          parentAtRet, readerClosed, closeRet, h
+          parentAtRet, readerClosed, readState, closeRet, h
 
 (* define statement *)
 CtxDone(i) == parentCancelled \/ ctxCancelled[i]
@@ -170,7 +186,7 @@ VARIABLES me, sm, got
 
 vars == << pc, out, mode, style, closeErr, parentCancelled, ctxCancelled, 
            doneClosed, taken, memberReturned, opened, closed, ret, retOwner, 
-           parentAtRet, readerClosed, closeRet, h, me, sm, got >>
+           parentAtRet, readerClosed, readState, closeRet, h, me, sm, got >>
 
 ProcSet == ({10, 11}) \cup ({20, 21}) \cup {1} \cup {2} \cup {3}
 
@@ -190,6 +206,7 @@ Init == (* Global variables *)
         /\ retOwner = -1
         /\ parentAtRet = FALSE
         /\ readerClosed = FALSE
+        /\ readState = "none"
         /\ closeRet = "-"
         /\ h = <<>>
         (* Process member *)
@@ -202,7 +219,7 @@ Init == (* Global variables *)
                                         [] self \in {20, 21} -> "SSelect"
                                         [] self = 1 -> "MSel1"
                                         [] self = 2 -> "CCancel"
-                                        [] self = 3 -> "CClose"]
+                                        [] self = 3 -> "CUse"]
 
 MRun(self) == /\ pc[self] = "MRun"
               /\ mode[me[self]] = "normal" \/ CtxDone(me[self])
@@ -218,8 +235,8 @@ MRun(self) == /\ pc[self] = "MRun"
               /\ pc' = [pc EXCEPT ![self] = "Done"]
               /\ UNCHANGED << out, mode, style, closeErr, parentCancelled, 
                               ctxCancelled, doneClosed, taken, closed, ret, 
-                              retOwner, parentAtRet, readerClosed, closeRet, 
-                              me, sm, got >>
+                              retOwner, parentAtRet, readerClosed, readState, 
+                              closeRet, me, sm, got >>
 
 member(self) == MRun(self)
 
@@ -237,7 +254,7 @@ SSelect(self) == /\ pc[self] = "SSelect"
                  /\ UNCHANGED << out, mode, style, closeErr, parentCancelled, 
                                  doneClosed, taken, memberReturned, opened, 
                                  ret, retOwner, parentAtRet, readerClosed, 
-                                 closeRet, h, me, sm, got >>
+                                 readState, closeRet, h, me, sm, got >>
 
 sender(self) == SSelect(self)
 
@@ -267,7 +284,7 @@ MSel1 == /\ pc[1] = "MSel1"
                ELSE /\ pc' = [pc EXCEPT ![1] = "MSel2"]
          /\ UNCHANGED << out, mode, style, closeErr, parentCancelled, 
                          memberReturned, opened, closed, readerClosed, 
-                         closeRet, h, me, sm >>
+                         readState, closeRet, h, me, sm >>
 
 MSel2 == /\ pc[1] = "MSel2"
          /\ \/ /\ \E j \in {k \in M : Ready(k)}:
@@ -289,7 +306,7 @@ MSel2 == /\ pc[1] = "MSel2"
          /\ pc' = [pc EXCEPT ![1] = "Done"]
          /\ UNCHANGED << out, mode, style, closeErr, parentCancelled, 
                          memberReturned, opened, closed, readerClosed, 
-                         closeRet, h, me, sm >>
+                         readState, closeRet, h, me, sm >>
 
 main == MSel1 \/ MSel2
 
@@ -299,24 +316,35 @@ CCancel == /\ pc[2] = "CCancel"
            /\ pc' = [pc EXCEPT ![2] = "Done"]
            /\ UNCHANGED << out, mode, style, closeErr, ctxCancelled, 
                            doneClosed, taken, memberReturned, opened, closed, 
-                           ret, retOwner, parentAtRet, readerClosed, closeRet, 
-                           me, sm, got >>
+                           ret, retOwner, parentAtRet, readerClosed, readState, 
+                           closeRet, me, sm, got >>
 
 canceller == CCancel
 
-CClose == /\ pc[3] = "CClose"
-          /\ pc[1] = "Done" /\ style = "reader" /\ ret \in Oks
-          /\ readerClosed' = TRUE
-          /\ closeRet' = IF closeErr[retOwner] THEN "err" ELSE "ok"
-          /\ closed' = [closed EXCEPT ![retOwner] = TRUE]
-          /\ ctxCancelled' = [ctxCancelled EXCEPT ![retOwner] = TRUE]
-          /\ h' = Rec("close")
-          /\ pc' = [pc EXCEPT ![3] = "Done"]
-          /\ UNCHANGED << out, mode, style, closeErr, parentCancelled, 
-                          doneClosed, taken, memberReturned, opened, ret, 
-                          retOwner, parentAtRet, me, sm, got >>
+CUse == /\ pc[3] = "CUse"
+        /\ pc[1] = "Done" /\ style = "reader" /\ ret \in Oks
+        /\ \/ /\ readState = "none"
+              /\ readState' = "part"
+              /\ h' = Rec("readpart")
+              /\ pc' = [pc EXCEPT ![3] = "CUse"]
+              /\ UNCHANGED <<ctxCancelled, closed, readerClosed, closeRet>>
+           \/ /\ readState # "eof"
+              /\ readState' = "eof"
+              /\ h' = Rec("read")
+              /\ pc' = [pc EXCEPT ![3] = "CUse"]
+              /\ UNCHANGED <<ctxCancelled, closed, readerClosed, closeRet>>
+           \/ /\ readerClosed' = TRUE
+              /\ closeRet' = IF closeErr[retOwner] THEN "err" ELSE "ok"
+              /\ closed' = [closed EXCEPT ![retOwner] = TRUE]
+              /\ ctxCancelled' = [ctxCancelled EXCEPT ![retOwner] = TRUE]
+              /\ h' = Rec("close")
+              /\ pc' = [pc EXCEPT ![3] = "Done"]
+              /\ UNCHANGED readState
+        /\ UNCHANGED << out, mode, style, closeErr, parentCancelled, 
+                        doneClosed, taken, memberReturned, opened, ret, 
+                        retOwner, parentAtRet, me, sm, got >>
 
-closer == CClose
+closer == CUse
 
 (* Allow infinite stuttering to prevent deadlock on termination. *)
 Terminating == /\ \A self \in ProcSet: pc[self] = "Done"
@@ -369,6 +397,8 @@ WinnerCtxLiveUntilClose ==
   (style = "reader" /\ Winner # -1) =>
      /\ ~readerClosed => (~ctxCancelled[Winner] /\ ~closed[Winner])
      /\ readerClosed => (ctxCancelled[Winner] /\ closed[Winner])
+\* reading happens on a reader that was returned and is not closed yet
+ReadOnlyOpenReader == readState # "none" => (style = "reader" /\ Winner # -1)
 \* the error of the member reader's Close is passed through to the caller (and, by
 \* WinnerCtxLiveUntilClose, does not keep the context from being cancelled)
 ClosePassesError ==
@@ -385,7 +415,7 @@ ReceivedAndDroppedIsCancelled ==
 ClosedWasOpened == \A k \in M : closed[k] => opened[k]
 
 Inv == TypeOK /\ ReturnsFirstSuccess /\ ErrorOnlyIfBothFailOrCancelled /\ WinnerCtxLiveUntilClose
-       /\ ResolveCancelsAtReturn /\ ReceivedAndDroppedIsCancelled /\ ClosedWasOpened /\ ClosePassesError
+       /\ ResolveCancelsAtReturn /\ ReceivedAndDroppedIsCancelled /\ ClosedWasOpened /\ ClosePassesError /\ ReadOnlyOpenReader
 
 \* liveness (under Spec: weak fairness of main, senders, members)
 \* "every reader opened on the member that was not chosen is closed"
